@@ -199,6 +199,17 @@ func (d *delegate) LocalState(join bool) []byte {
 		pp.LeftMembers = append(pp.LeftMembers, member.Name)
 	}
 
+	// A member we hold as leaving has a pending leave too: its status time is
+	// the time of a leave intent, not of a join. List it as well, otherwise the
+	// receiver takes that time for a join time: it would then ignore the leave
+	// intent itself as stale and, if it is the member in question and still
+	// running, never learn that it has to refute the claim.
+	for name, member := range d.serf.members {
+		if member.Status == StatusLeaving {
+			pp.LeftMembers = append(pp.LeftMembers, name)
+		}
+	}
+
 	// Encode the push pull state
 	buf, err := encodeMessage(messagePushPullType, &pp, d.serf.msgpackUseNewTimeFormat)
 	if err != nil {
